@@ -41,7 +41,7 @@ Proof.
 Qed.
 
 Section Brute.
-  Variable key : Z -> Z -> Z.
+  Variable key : Z -> Z -> Z -> Z -> Z.
   Variables xc yc : list (option Z).
   Variable values : list xv.
   Variable img : list (list xv).
@@ -93,11 +93,12 @@ Definition coords_ok (l : list (option Z)) (n : Z) : Prop :=
   forall i, 0 <= i < n -> exists z, coord l i = Some z.
 Definition coords_inj (l : list (option Z)) (n : Z) : Prop :=
   forall i j, 0 <= i < n -> 0 <= j < n -> coord l i = coord l j -> i = j.
-Definition key_pd (key : Z -> Z -> Z) : Prop :=
-  forall dx dy, key dx dy = 0 <-> (dx = 0 /\ dy = 0).
+Definition key_pd (key : Z -> Z -> Z -> Z -> Z) : Prop :=
+  forall x1 x2 y1 y2, key x1 x2 y1 y2 = 0 <-> (x1 = x2 /\ y1 = y2).
+Definition key_self0 (key : Z -> Z -> Z -> Z -> Z) : Prop := forall x y, key x x y y = 0.
 
 Section Spec.
-  Variable key : Z -> Z -> Z.
+  Variable key : Z -> Z -> Z -> Z -> Z.
   Variable tie_up : Z -> bool.
   Variables R M : ext.
   Variables xc yc : list (option Z).
@@ -108,7 +109,7 @@ Section Spec.
   Let g := process key tie_up R M xc yc values img.
   Hypothesis Hx : coords_ok xc w.
   Hypothesis Hy : coords_ok yc h.
-  Hypothesis Hk0 : key 0 0 = 0.
+  Hypothesis Hk0 : key_self0 key.
   Hypothesis HM0 : ele (EFin 0) M = true.
 
   Lemma named_target : forall r c e, 0 <= r < h -> 0 <= c < w ->
@@ -122,7 +123,7 @@ Section Spec.
     exists ty, tx. destruct HP as [(-> & -> & ->)|(d & Hd & -> & Hm)].
     - exists 0. repeat split; auto.
       unfold dist2. destruct (Hx c Hc) as (x & ->). destruct (Hy r Hr) as (y & ->).
-      rewrite !Z.sub_diag, Hk0. reflexivity.
+      rewrite Hk0. reflexivity.
     - exists d. repeat split; auto.
   Qed.
 
